@@ -99,10 +99,10 @@ impl Args {
         }
         let thorough = a.tier == "thorough";
         if a.ip_plans == 0 {
-            a.ip_plans = if thorough { 10 } else { 7 };
+            a.ip_plans = if thorough { 8 } else { 7 };
         }
         if a.ex_plans == 0 {
-            a.ex_plans = if thorough { 8 } else { 5 };
+            a.ex_plans = if thorough { 6 } else { 5 };
         }
         if a.ip_groups == 0 {
             // harvested programs come first, generated ones after; thorough is time-boxed instead
